@@ -72,7 +72,7 @@ def _first_char_of_delimiter(b, n):
 def aud_key(site):
     """Site signatures are compared modulo binding mode: unary `*`, `&`, `&mut` are dropped (`removed_pos[*pair_idx]` and
     `removed_pos[pair_idx]` are the same operation on the same value)."""
-    s = re.sub(r"\.expect\('(?:[^'\\]|\\.)*'\)", ".unwrap()", site)      # `expect("why")` is `unwrap()` with a message
+    s = re.sub(r"\.expect\((?:'(?:[^'\\]|\\.)*'|\"(?:[^\"\\]|\\.)*\")\)", ".unwrap()", site)      # `expect("why")` is `unwrap()` with a message
     s = re.sub(r"(?<![\w)\]])\*(?=[\w(])", "", s)       # unary `*x` (a product is rendered `a * b`, with a space after the star)
     s = re.sub(r"(?<![\w)\]&])&(?:mut )?(?=[\w(*])", "", s)
     # a Range value: `r.clone()` and `r.start..r.end` are `r`
